@@ -83,7 +83,7 @@ def _c15_worker(case):
                 # only nodes reachable from the start; start = root reaches everything in plain histories
                 if all(is_plain(o) for o, *_ in snaps[: idx + 1]):
                     msgs.append(("true-but-incomplete", f"{op} returned True but unexpanded nodes remain")); break
-            if op[0] in ("aseeds", "min") and r == "true" and (op[0] == "aseeds" or op[1] in (None, 0)) and all(is_plain(o) for o, *_ in snaps[: idx + 1]):
+            if op[0] in ("aseeds", "min", "block") and r == "true" and (op[0] != "min" or op[1] in (None, 0)) and all(is_plain(o) or o[0] == "block" for o, *_ in snaps[: idx + 1]):
                 # a complete attractor-seed / minimal-space expansion: every minimal trap space is an expanded leaf
                 succ_of = {i: [] for i in range(len(ns))}
                 for a_, b_, _ in es:
@@ -138,7 +138,7 @@ def run_C15(tier, seed):
     rng = random.Random(seed)
     cases = load_corpus("C15")
     count = _sizes(tier, 400, 6000)
-    kinds = ("expand", "bfs", "dfs", "min", "target", "bfs", "dfs", "cands", "seeds", "aseeds")
+    kinds = ("expand", "bfs", "dfs", "min", "target", "bfs", "dfs", "cands", "seeds", "aseeds", "blockplain")
     while len(cases) < count:
         rules = gen_network(rng, 2, _sizes(tier, 6, 7))
         n = len(rules.splitlines())
